@@ -16,8 +16,10 @@
    * a script is a list of units (statement, separator); separators are breaks and printable
      white space (several statements per line = separators without break).
    * a delivery `pcs` cuts the script's keys into chunks, each typed or bracketed-pasted.
-   * `fits`: no typed printable key arrives while the line buffer holds exactly 4096 runes
-     (maxLineLength; such a key is silently dropped by handleKey; pasted keys never are). *)
+   * NO hypothesis on statement or line length any more: until /repo removed it, handleKey silently
+     dropped a typed printable key while the line buffer held exactly 4096 runes (maxLineLength,
+     inherited from x/term), so a typed statement longer than that reached the engine altered; the
+     theorems carried a hypothesis `fits` excluding it, which was the signal of that defect. *)
 From Coq Require Import List NArith Bool.
 From Mkdb Require Import Model.Console Spec.ConsoleSpec Proofs.ConsoleProofs.
 Import ListNotations.
@@ -44,7 +46,7 @@ Print Assumptions C20_incomplete_never_submits.
    place - also inside literals or tokens -, paste markers, every key during a paste) equals
    splitting the flat buffer text: nothing lost, duplicated or reordered *)
 Theorem C20_session_is_split : forall ks t lip,
-  clean (paste t) ks = true -> fits t lip ks = true ->
+  clean (paste t) ks = true ->
   submitted (fst (run t lip ks)) ++ pending (line (fst (snd (run t lip ks)))) =
     pending (line t ++ flat (paste t) ks) /\
   complete (line (fst (snd (run t lip ks)))) = complete (line t ++ flat (paste t) ks) /\
@@ -59,7 +61,6 @@ Print Assumptions C20_session_is_split.
 Theorem C20_submitted : forall us pcs,
   forallb wf_unit us = true ->
   concat (map snd pcs) = script_keys us ->
-  fits init_term false (deliver pcs ++ [keyEnter]) = true ->
   submitted (fst (run init_term false (deliver pcs ++ [keyEnter]))) = map (fun u => normalise (fst u)) us /\
   all_lines (fst (run init_term false (deliver pcs ++ [keyEnter]))) = true /\
   line (fst (snd (run init_term false (deliver pcs ++ [keyEnter])))) = [].
@@ -116,7 +117,6 @@ Definition ex_pcs : list (bool * list N) :=
 
 Example C20_nonvacuous_hyps :
   forallb wf_unit ex_units = true /\ List.concat (List.map snd ex_pcs) = script_keys ex_units /\
-  fits init_term false (deliver ex_pcs ++ [keyEnter]) = true /\
   forallb (fun u => breaks_at_spaces true (fst u)) ex_units = true.
 Proof. vm_compute. repeat split; reflexivity. Qed.
 
